@@ -9,7 +9,7 @@ RULE = ('references and queries on a coordinate lattice commensurate with both c
         'lattice of 3x the step), 1-2 references, queries = interior windows, clean or noisy (dropped labels, '
         'lattice-aligned extra labels, lattice-aligned indels so that multi-segment chains occur), first label at 0 or '
         'at a lattice offset, unlabelled tail of 1-3 steps; every query q is placed in the same run as its mirror image '
-        '(positions L-x), -d below half the lattice step, separate mode. Oracle: both first-pass records absent, or both '
+        '(positions L-x), -d below half the lattice step, default or varied -ms/-sj/-dp/-bs/-p (single-pair segments and cheap joins become possible), separate mode. Oracle: both first-pass records absent, or both '
         'present with opposite Orientation, the same reference, the same reference labels, query label k <-> N+1-k, and '
         'Confidence equal to the cent. Non-trivial = pair with both records present; distinct by content hash.')
 ASSUMPTIONS = ['pairs in which two different candidates of a query tie exactly in confidence are skipped and counted '
@@ -71,6 +71,12 @@ def make_case(rng):
     P['r1'], P['r2'] = r1, r2
     P['md'] = max(20000, r1)
     P['d'] = rng.choice([100, 300, step // 2 - 50, step // 2 - 1])
+    if rng.random() < 0.5:
+        P['ms'] = rng.choice([1000, 900, 500, 2000])
+        P['sj'] = rng.choice([1.0, 0.01, 0.0, 2.0])
+        P['dp'] = rng.choice([1.0, 0.0, 2.0])
+        P['bs'] = rng.choice([1200, 600, 0])
+        P['p'] = rng.choice([3, 1, 6])
     return {'refs': refs, 'queries': queries, 'qclass': qclass, 'params': P, 'mode': 'separate', 'mirror_pairs': pairs}
 
 
